@@ -437,3 +437,6 @@ def cli_check(res, known, args):
                          "rule": "real binary and real c-shared library (ctypes) run in fresh scratch directories on DSL texts x entry points x flag spellings x all 64 output-flag subsets; stdout, exit code and resulting directory tree compared with the Coq wrapper model instantiated with the real library results (hook)",
                          "samples": [{"tail_of_report": out[-1200:]}]})
     res.assumptions += ["OS-level effects (permissions, partial writes, symlinks) are outside the model", "stderr is not compared"]
+
+
+import checks2  # noqa: E402,F401  (handlers of C07-C12, C17)
